@@ -168,9 +168,11 @@ mxArray* wrap<size_t>(const size_t& value) {
 }
 
 // specialization to int
+// (a signed class: in the low bytes of an unsigned 64-bit scalar, -1 would
+// reach MATLAB as 4294967295)
 template<>
 mxArray* wrap<int>(const int& value) {
-  mxArray *result = scalar(mxUINT32OR64_CLASS);
+  mxArray *result = scalar(mxINT32_CLASS);
   *(int*)mxGetData(result) = value;
   return result;
 }
